@@ -69,22 +69,64 @@ type LimbDom struct {
 	TrackPoly bool
 	// Flat: 128-bit products and carry chains are not kept paired; every word is an
 	// independent polynomial with explicit carry symbols (word-by-word Montgomery code)
-	Flat bool
-	nextWide  int
-	sums      map[[2]int]*Wide
-	hArgs     map[string]hArg // carry symbols: name -> (argument polynomial, shift)
-	prog      *load.Program
+	Flat     bool
+	nextWide int
+	sums     map[[2]int]*Wide
+	hArgs    map[string]hArg // carry symbols: name -> (argument polynomial, shift)
+	prog     *load.Program
 	// Prims: in-repo functions given a summary instead of being interpreted
 	Prims map[string]func(in *Interp, site ssa.Instruction, args []Val) []Val
+	// SubLog: every bits.Sub64 whose borrow is symbolic (Flat mode): operands, incoming and outgoing borrow
+	SubLog []SubRec
+}
+
+// SubRec is one word of a multi-word subtraction: Out = [X − Y − In < 0].
+type SubRec struct{ X, Y, In, Out *poly.Poly }
+
+// LBool is a boolean given as a {0,1}-valued polynomial (true = 1).
+type LBool struct{ P *poly.Poly }
+
+// BorrowChain follows the borrow symbol out backwards through the log: if it is
+// the final borrow of a complete multi-word subtraction X − Y (the chain starts
+// with an incoming borrow of 0 and each word's incoming borrow is the previous
+// word's outgoing one), it returns X = Σ x_i·2^(64i) and Y likewise; then
+// out = [X < Y] (schoolbook subtraction).
+func (d *LimbDom) BorrowChain(out *poly.Poly) (X, Y *poly.Poly, words int, ok bool) {
+	var chain []SubRec
+	cur := out
+	for steps := 0; steps < 64; steps++ {
+		var rec *SubRec
+		for i := len(d.SubLog) - 1; i >= 0; i-- {
+			if d.SubLog[i].Out.Equal(cur) {
+				rec = &d.SubLog[i]
+				break
+			}
+		}
+		if rec == nil {
+			return nil, nil, 0, false
+		}
+		chain = append([]SubRec{*rec}, chain...)
+		if rec.In.IsZero() {
+			X, Y = d.R.Int(0), d.R.Int(0)
+			for i, r := range chain {
+				w := new(big.Int).Lsh(big.NewInt(1), uint(64*i))
+				X = X.Add(r.X.Scale(w))
+				Y = Y.Add(r.Y.Scale(w))
+			}
+			return X, Y, len(chain), true
+		}
+		cur = rec.In
+	}
+	return nil, nil, 0, false
 }
 
 func NewLimbDom(p *load.Program, trackPoly bool) *LimbDom {
 	return &LimbDom{R: poly.NewRing(nil), TrackPoly: trackPoly, sums: map[[2]int]*Wide{}, prog: p}
 }
 
-func (d *LimbDom) Name() string                { return "limb intervals × polynomials (E4×E5)" }
-func (d *LimbDom) IsAtom(t types.Type) bool    { return false }
-func (d *LimbDom) ZeroAtom(t types.Type) Val   { return MkInt(0) }
+func (d *LimbDom) Name() string              { return "limb intervals × polynomials (E4×E5)" }
+func (d *LimbDom) IsAtom(t types.Type) bool  { return false }
+func (d *LimbDom) ZeroAtom(t types.Type) Val { return MkInt(0) }
 
 // Sym makes an input word with the given bounds and (if tracked) its own symbol.
 func (d *LimbDom) Sym(name string, lo, hi *big.Int) *LV {
@@ -360,6 +402,16 @@ func (d *LimbDom) BinOp(in *Interp, op token.Token, x, y Val, xt types.Type, pos
 		s := uint(k.V.Uint64())
 		hi := new(big.Int).Lsh(a.Hi, s)
 		ok := fits(hi)
+		if !ok && !signed && s < uint(bits) && a.Lo.Sign() >= 0 {
+			// an unsigned shift that drops high bits is defined behaviour: x << s = (x mod 2^(bits−s))·2^s, exactly
+			if t := d.lift(d.andConst(a, new(big.Int).Sub(pow2(uint(bits)-s), big.NewInt(1)), uint(bits))); t != nil {
+				var p *poly.Poly
+				if t.P != nil {
+					p = t.P.Scale(pow2(s))
+				}
+				return d.mk(new(big.Int).Lsh(t.Lo, s), new(big.Int).Lsh(t.Hi, s), p)
+			}
+		}
 		in.Oblige("no-overflow(<<)", pos, ok, "%s << %d must be < 2^%d", a.Hi, s, bits)
 		if !ok {
 			return top()
@@ -475,6 +527,21 @@ func (d *LimbDom) BinOp(in *Interp, op token.Token, x, y Val, xt types.Type, pos
 		}
 		if known {
 			return Bool{res}
+		}
+		// a {0,1}-valued word compared with 0 or 1: the boolean is that word (or its complement)
+		if d.Flat && (op == token.EQL || op == token.NEQ) {
+			one := big.NewInt(1)
+			bit, k := a, b
+			if !(k.Lo.Cmp(k.Hi) == 0) {
+				bit, k = b, a
+			}
+			if k.Lo.Cmp(k.Hi) == 0 && k.Lo.Sign() >= 0 && k.Lo.Cmp(one) <= 0 && bit.P != nil && bit.Lo.Sign() >= 0 && bit.Hi.Cmp(one) <= 0 {
+				p := bit.P
+				if (k.Lo.Sign() == 0) == (op == token.EQL) {
+					p = d.R.Int(1).Sub(p)
+				}
+				return LBool{P: p}
+			}
 		}
 	}
 	in.Undecided(pos, "limb domain cannot evaluate %s on [%s,%s] and [%s,%s]", op, a.Lo, a.Hi, b.Lo, b.Hi)
@@ -856,6 +923,7 @@ func (d *LimbDom) flatCall(in *Interp, site ssa.Instruction, fn *ssa.Function, n
 		if dp != nil {
 			diffP = dp.Sub(qp.Scale(two64))
 			borP = qp.Neg()
+			d.SubLog = append(d.SubLog, SubRec{X: a.P, Y: b.P, In: c.P, Out: borP})
 		}
 		bhi := big.NewInt(1)
 		blo := big.NewInt(0)
